@@ -99,11 +99,22 @@ struct Elem
 #define ELEM(n) T(entry)(n, Elem, node)
 #define ELEMC(n) ((Elem const *)T(entry)(n, Elem, node))
 
+// lookup by a bare key: the context handed to search is a `long`, the comparator takes (key, node) - the header passes the context
+// on the left.  The comparator recognises its key by address, so a call with the arguments the other way round is recorded, not run.
+static const void *g_key_ctx;
+static bool g_key_side_bad;
+static int cmp_key_node(void const *l, void const *r);
 static int cmp_elem(void const *l, void const *r)
 {
     long a = ELEMC(l)->key, b = ELEMC(r)->key;
     // any negative / zero / positive value is a valid answer: magnitudes other than one catch code that uses the result as +-1
     return a > b ? 3 : a < b ? -5 : 0;
+}
+static int cmp_key_node(void const *l, void const *r)
+{
+    if (l != g_key_ctx) { g_key_side_bad = true; return 0; }
+    long k = *(long const *)l, e = ELEMC((tnode const *)r)->key;
+    return k > e ? 3 : k < e ? -5 : 0;
 }
 
 static const int MAXN = 40;
@@ -449,8 +460,13 @@ struct Harness
             Elem probe;
             probe.key = 2 * (long)r + 1;
             tnode *got = T(search)(&L.root, &probe.node, cmp_elem);
+            long bare = probe.key;
+            g_key_ctx = &bare;
+            g_key_side_bad = false;
+            tnode *got2 = T(search)(&L.root, &bare, cmp_key_node);
             out.leave();
             if (got != &L.order[r]->node) { out.viol(op, TNAME "|search|present-not-found", "lookup of a present key did not return its element"); continue; }
+            if (g_key_side_bad || got2 != got) { out.viol(op, TNAME "|search|key-context", g_key_side_bad ? "search called the comparator without its context argument on the left" : "lookup by a bare key with a (key, node) comparator did not return the element"); continue; }
             out.succ(op, key, "search", "found");
         }
         for (int g = 0; g <= m; ++g)
@@ -460,8 +476,13 @@ struct Harness
             Elem probe;
             probe.key = 2 * (long)g;
             tnode *got = T(search)(&L.root, &probe.node, cmp_elem);
+            long bare = probe.key;
+            g_key_ctx = &bare;
+            g_key_side_bad = false;
+            tnode *got2 = T(search)(&L.root, &bare, cmp_key_node);
             out.leave();
             if (got != nullptr) { out.viol(op, TNAME "|search|absent-found", "lookup of an absent key returned an element"); continue; }
+            if (g_key_side_bad || got2 != nullptr) { out.viol(op, TNAME "|search|key-context", g_key_side_bad ? "search called the comparator without its context argument on the left" : "lookup of an absent bare key with a (key, node) comparator returned an element"); continue; }
             out.succ(op, key, "search", "absent");
         }
         if (encode(L) != key) { out.viol(xs::Op{OP_FIND, 0, 0, 0}, TNAME "|search|changed", "lookups changed the tree"); }
